@@ -191,6 +191,16 @@ def shrink(c):
             yield d
 
 
+# functions of the implementation this property is anchored in: their line coverage under the correspondence cases is
+# measured on the staged copy and reported in the evidence (implementation_line_coverage)
+ANCHORS = [
+    "datascope/importance/shapley.py:ShapleyImportance._shapley_neighbor",
+    "datascope/importance/shapley.py:get_test_batch_size",
+    "datascope/importance/shapley.py:get_unit_labels_and_distances",
+    "datascope/importance/utility.py:SklearnModelAccuracy.elementwise_score",
+    "datascope/importance/utility.py:SklearnModelAccuracy.elementwise_null_score",
+]
+
 MANIFEST = {
     "text": "Proof: C07_validation_permuted, C07_validation_duplicated, C07_monotone_rows/_orders (strictly increasing "
             "distance transforms keep every unit's nearest row and exactly the admissible rank orders), "
